@@ -60,6 +60,7 @@ ASSUMPTIONS = [
 ]
 
 H3_MESSAGE_ERROR = 0x10E
+H3_FRAME_ERROR = 0x106
 QPACK_DECOMPRESSION_FAILED = 0x200
 
 ALPHABET = bytes.fromhex("00090a0d20213a415a617f80ff")
@@ -90,6 +91,7 @@ BODY_SPLITS = [
     [5], [2, 3], [0, 5, 0], [1, 1, 1, 1, 1],
     [6], [5, 1], [3, 0, 3],
 ]
+TRUNCS = [(1, 0), (2, 0), (2, 1), (5, 0), (5, 1), (5, 4)]  # (announced K, carried j < K)
 CL_ENDINGS = ["fin_frame", "lone_fin", "trailers_fin", "trailers_lone_fin", "unknown_frame_fin"]
 CHUNKS = ["one", "frame", "byte"]
 
@@ -139,6 +141,8 @@ def floors(tier):
         "stream_end_events_checked": 300,
         "cl_mismatch_rejected": 100,
         "cl_match_accepted": 50,
+        "cl_truncated_mismatch_rejected": 50,
+        "cl_truncated_match_accepted": 20,
         "blocked_then_resumed": 200,
         "push_promise_blocked_cases": 100,
     }
@@ -313,8 +317,9 @@ SETTINGS_FRAME = frame(0x04, enc_varint(0x01) + enc_varint(4096) + enc_varint(0x
 # ------------------------------------------------------------------ one case
 
 
-def case_dict(kind, block, enc, body, ending, chunk):
+def case_dict(kind, block, enc, body, ending, chunk, trunc=None):
     return {
+        "trunc": list(trunc) if trunc else None,
         "gen": "replay",
         "kind": kind,
         "block": [[n.hex(), v.hex()] for n, v in block],
@@ -348,8 +353,12 @@ def _reason_class(reason):
     return "other" if r else "none"
 
 
-def run_case(res, kind, block, enc="lsq", body=(), ending="fin_frame", chunk="one"):
-    """Execute one scenario against a fresh real H3Connection and apply both oracles."""
+def run_case(res, kind, block, enc="lsq", body=(), ending="fin_frame", chunk="one", trunc=None):
+    """Execute one scenario against a fresh real H3Connection and apply both oracles.
+
+    trunc=(K, j): after the complete DATA frames of `body`, a final DATA frame whose header
+    announces K payload bytes but which carries only j < K before the stream ends. The body
+    bytes DELIVERED are then sum(body)+j, the bytes ANNOUNCED sum(body)+K."""
     from aioquic.h3.connection import H3Connection
     from aioquic.h3.events import DataReceived, HeadersReceived, PushPromiseReceived
     from aioquic.quic.events import StreamDataReceived
@@ -399,6 +408,14 @@ def run_case(res, kind, block, enc="lsq", body=(), ending="fin_frame", chunk="on
 
     feed = [(peer_ctrl, b"\x00" + SETTINGS_FRAME, False)]
     data_frames = [frame(0x00, b"d" * n) for n in body]
+    if trunc:
+        if kind not in ("request", "response", "push_response") or ending not in ("fin_frame", "lone_fin"):
+            raise RuntimeError("harness: truncated DATA frame must be the last thing on the stream")
+        tk, tj = trunc
+        if not 0 <= tj < tk:
+            raise RuntimeError("harness: bad trunc %r" % (trunc,))
+        data_frames.append(enc_varint(0x00) + enc_varint(tk) + b"d" * tj)
+    ending_label = ("truncated-data+" + ending) if trunc else ending
     prefix = b""
     tsid = sid0
     if kind in ("request", "response"):
@@ -494,7 +511,7 @@ def run_case(res, kind, block, enc="lsq", body=(), ending="fin_frame", chunk="on
                 res.violation(
                     "event-violates-V:%s:%s" % (kind, "+".join(eb[:2])),
                     "HeadersReceived (%s) handed to the application breaks %s: %r" % (ekind, eb, ev.headers),
-                    case_dict(kind, block, enc, body, ending, chunk),
+                    case_dict(kind, block, enc, body, ending, chunk, trunc),
                     {"event": repr(ev)[:600], "closed": closed},
                 )
             if ev.stream_id == tsid and idx == target_idx and kind != "push_promise":
@@ -507,7 +524,7 @@ def run_case(res, kind, block, enc="lsq", body=(), ending="fin_frame", chunk="on
                 res.violation(
                     "event-violates-V:%s:%s" % (kind, "+".join(eb[:2])),
                     "PushPromiseReceived handed to the application breaks %s: %r" % (eb, ev.headers),
-                    case_dict(kind, block, enc, body, ending, chunk),
+                    case_dict(kind, block, enc, body, ending, chunk, trunc),
                     {"event": repr(ev)[:600], "closed": closed},
                 )
             if kind == "push_promise":
@@ -523,10 +540,10 @@ def run_case(res, kind, block, enc="lsq", body=(), ending="fin_frame", chunk="on
             if dk == "decimal" and delivered.get(sid, 0) != dn:
                 viol = True
                 res.violation(
-                    "ended-with-content-length-mismatch:%s:%s" % (kind, ending),
+                    "ended-with-content-length-mismatch:%s:%s" % (kind, ending_label),
                     "stream %d reported ended with declared content-length %d but %d body bytes delivered"
                     % (sid, dn, delivered.get(sid, 0)),
-                    case_dict(kind, block, enc, body, ending, chunk),
+                    case_dict(kind, block, enc, body, ending, chunk, trunc),
                     {"event": repr(ev)[:300], "closed": closed},
                 )
 
@@ -555,7 +572,7 @@ def run_case(res, kind, block, enc="lsq", body=(), ending="fin_frame", chunk="on
     dk, dn = ("none", None)
     if vkind != "trailers" and kind != "push_promise":
         dk, dn = declared_length(block)
-    body_total = sum(body)
+    body_total = sum(body) + (trunc[1] if trunc else 0)  # bytes the peer actually put on the stream
     clclass = dk
     if dk == "decimal":
         clclass = "match" if dn == body_total else "mismatch"
@@ -569,7 +586,7 @@ def run_case(res, kind, block, enc="lsq", body=(), ending="fin_frame", chunk="on
             res.violation(
                 exc_signature(raised, "bad-block-raised:%s:" % kind),
                 "handle_event raised %r on a block breaking %s" % (raised, broken),
-                case_dict(kind, block, enc, body, ending, chunk),
+                case_dict(kind, block, enc, body, ending, chunk, trunc),
                 exc_witness(raised),
             )
         elif target_event is not None:
@@ -582,7 +599,7 @@ def run_case(res, kind, block, enc="lsq", body=(), ending="fin_frame", chunk="on
                 "blocked-push-promise-resumed-as-headers:bad-block-not-rejected",
                 "PUSH_PROMISE whose block (breaking %s) was QPACK-blocked got resumed as a HEADERS frame: no close, "
                 "application received HeadersReceived(%r)" % (broken, block),
-                case_dict(kind, block, enc, body, ending, chunk),
+                case_dict(kind, block, enc, body, ending, chunk, trunc),
                 {"events": [repr(e)[:300] for e in events[:6]]},
             )
         elif code is None:
@@ -590,7 +607,7 @@ def run_case(res, kind, block, enc="lsq", body=(), ending="fin_frame", chunk="on
             res.violation(
                 "bad-block-not-rejected:%s:%s" % (kind, rules),
                 "block breaking %s produced neither its event nor a close (events=%d)" % (broken, len(events)),
-                case_dict(kind, block, enc, body, ending, chunk),
+                case_dict(kind, block, enc, body, ending, chunk, trunc),
                 {"events": [repr(e)[:200] for e in events[:6]]},
             )
         elif code != H3_MESSAGE_ERROR:
@@ -601,7 +618,7 @@ def run_case(res, kind, block, enc="lsq", body=(), ending="fin_frame", chunk="on
                 res.violation(
                     "bad-block-wrong-close-code:%s:%s:0x%x" % (kind, rules, code),
                     "block breaking %s closed the connection with 0x%x (%r), not H3_MESSAGE_ERROR" % (broken, code, closed[1]),
-                    case_dict(kind, block, enc, body, ending, chunk),
+                    case_dict(kind, block, enc, body, ending, chunk, trunc),
                     {"closed": closed},
                 )
         else:
@@ -641,24 +658,30 @@ def run_case(res, kind, block, enc="lsq", body=(), ending="fin_frame", chunk="on
                 elif code is None:
                     viol = True
                     res.violation(
-                        "content-length-mismatch-not-rejected:%s:%s" % (kind, ending),
+                        "content-length-mismatch-not-rejected:%s:%s" % (kind, ending_label),
                         "declared %d, body %d bytes, stream finished: no end event and no close" % (dn, body_total),
-                        case_dict(kind, block, enc, body, ending, chunk),
+                        case_dict(kind, block, enc, body, ending, chunk, trunc),
                         {"events": [repr(e)[:200] for e in events[:8]]},
                     )
+                elif trunc and code == H3_FRAME_ERROR:
+                    res.count("obs_truncated_data_frame_closed_with_frame_error")  # stricter for another reason
                 elif code != H3_MESSAGE_ERROR:
                     viol = True
                     res.violation(
-                        "content-length-mismatch-wrong-close-code:%s:%s:0x%x" % (kind, ending, code),
+                        "content-length-mismatch-wrong-close-code:%s:%s:0x%x" % (kind, ending_label, code),
                         "declared %d, body %d bytes: closed with 0x%x" % (dn, body_total, code),
-                        case_dict(kind, block, enc, body, ending, chunk),
+                        case_dict(kind, block, enc, body, ending, chunk, trunc),
                         {"closed": closed},
                     )
                 else:
                     res.count("cl_mismatch_rejected")
+                    if trunc:
+                        res.count("cl_truncated_mismatch_rejected")
             elif dk == "decimal":
                 if ended_on_target:
                     res.count("cl_match_accepted")
+                    if trunc:
+                        res.count("cl_truncated_match_accepted")
                 else:
                     res.count("obs_cl_match_not_accepted")
             else:
@@ -669,7 +692,7 @@ def run_case(res, kind, block, enc="lsq", body=(), ending="fin_frame", chunk="on
 
     if outcome != "nothing":
         res.nontrivial.add(
-            "%s|%s|%s|%s|%s|%s|%s" % (kind, "+".join(broken), "+".join(either), outcome, ending, clclass, enc)
+            "%s|%s|%s|%s|%s|%s|%s" % (kind, "+".join(broken), "+".join(either), outcome, ending_label, clclass, enc)
         )
     return viol
 
@@ -837,6 +860,21 @@ def gen_clen(batch, res):
                 for enc in ("lsq", "dyn"):
                     run_case(res, kind, block, enc, body, ending, chunk)
                     res.count("content_length_cases")
+    # final DATA frame cut short by the end of the stream: announced != delivered
+    for pre in ([], [3], [0]):
+        for tk, tj in TRUNCS:
+            delivered = sum(pre) + tj
+            announced = sum(pre) + tk
+            declared = []
+            for d in (delivered, announced, announced + 1, 0):
+                if d not in declared:
+                    declared.append(d)
+            for d in declared:
+                block = base_pseudo(kind) + [(b"content-length", str(d).encode()), (b"x-a", b"1")]
+                for ending in ("fin_frame", "lone_fin"):
+                    for enc in ("lsq", "dyn"):
+                        run_case(res, kind, block, enc, pre, ending, chunk, (tk, tj))
+                        res.count("content_length_truncated_cases")
     res.sample({"gen": "clen", "kind": kind, "chunk": chunk, "spellings": len(CL_SPELLINGS), "splits": BODY_SPLITS, "endings": CL_ENDINGS}, limit=1)
 
 
@@ -887,7 +925,10 @@ def gen_misc(batch, res):
 
 def gen_replay(batch, res):
     block = [(bytes.fromhex(n), bytes.fromhex(v)) for n, v in batch["block"]]
-    run_case(res, batch["kind"], block, batch.get("enc", "lsq"), batch.get("body", []), batch.get("ending", "fin_frame"), batch.get("chunk", "one"))
+    run_case(
+        res, batch["kind"], block, batch.get("enc", "lsq"), batch.get("body", []), batch.get("ending", "fin_frame"),
+        batch.get("chunk", "one"), tuple(batch["trunc"]) if batch.get("trunc") else None,
+    )
 
 
 GENS = {
